@@ -101,15 +101,16 @@ def run_check(prop: str, tier: str, t0: float) -> int:
 
     violations = [v for r in results for v in r.violations if v.prop == prop]
 
-    # ---- 3. failing-input search when something no longer checks
-    if broken and not violations and ok:
+    kf = common.known_findings()
+    listed = {(f["property"], f["signature"]): f for f in kf.get("findings", [])}
+
+    # ---- 3. failing-input search when something no longer checks (a listed finding is not the failing input looked for)
+    if broken and ok and all((v.prop, v.signature) in listed for v in violations):
         for r in registry.search(prop, tier, seed, broken):
             results.append(r)
             violations += [v for v in r.violations if v.prop == prop]
 
     # ---- 4. verdict
-    kf = common.known_findings()
-    listed = {(f["property"], f["signature"]): f for f in kf.get("findings", [])}
     known, fresh = [], []
     seen = set()
     for v in violations:
